@@ -18,10 +18,9 @@ fn any_tok(i: usize) -> Token {
     Token::new(Span::new(i, i + 1), kind)
 }
 
-fn check_parse_inline_tag<const N: usize>() {
-    let toks: [Token; N] = core::array::from_fn(any_tok);
+fn check_parse_inline_tag(toks: &[Token]) {
     let len: usize = kani::any();
-    kani::assume(len <= N);
+    kani::assume(len <= toks.len());
     let r = parse_inline_tag(&toks[..len]);
     if let Some(p) = r {
         // the tag ends inside the slice, on a closing curly
@@ -32,27 +31,24 @@ fn check_parse_inline_tag<const N: usize>() {
     kani::cover!(r.is_none() && len >= 4);
 }
 
-fn check_mark_inline_tags<const N: usize>() {
-    let mut toks: [Token; N] = core::array::from_fn(any_tok);
-    let len: usize = kani::any();
-    kani::assume(len <= N);
-    mark_inline_tags(&mut toks[..len]);
-    // spans are untouched
-    let j: usize = kani::any();
-    kani::assume(j < len);
-    assert!(toks[j].span.start == j && toks[j].span.end == j + 1);
-    kani::cover!(len == N);
-}
+// (a harness for mark_inline_tags makes kani-compiler 0.68 panic in codegen: 'unable to find field 0 for type StructTag';
+// the function is therefore listed as unverified)
 
 #[kani::proof]
 #[kani::unwind(8)]
-fn parse_inline_tag_4() { check_parse_inline_tag::<4>() }
+fn parse_inline_tag_4() {
+    let toks = [any_tok(0), any_tok(1), any_tok(2), any_tok(3)];
+    check_parse_inline_tag(&toks)
+}
 #[kani::proof]
 #[kani::unwind(9)]
-fn parse_inline_tag_5() { check_parse_inline_tag::<5>() }
+fn parse_inline_tag_5() {
+    let toks = [any_tok(0), any_tok(1), any_tok(2), any_tok(3), any_tok(4)];
+    check_parse_inline_tag(&toks)
+}
 #[kani::proof]
 #[kani::unwind(10)]
-fn parse_inline_tag_6() { check_parse_inline_tag::<6>() }
-#[kani::proof]
-#[kani::unwind(9)]
-fn mark_inline_tags_5() { check_mark_inline_tags::<5>() }
+fn parse_inline_tag_6() {
+    let toks = [any_tok(0), any_tok(1), any_tok(2), any_tok(3), any_tok(4), any_tok(5)];
+    check_parse_inline_tag(&toks)
+}
